@@ -241,7 +241,8 @@ def build_http_config(rng, keyname="rsa1024_a", hostile=False, extras=True, allo
             a, b = hostile_bytes(rng), hostile_bytes(rng)
         m["procinj_x86"] = (a, b)
         opt.append((46, 3, (u32(len(a)) + a + u32(len(b)) + b).ljust(256, b"\0")))
-        a, b = rng.randbytes(rng.choice([0, 3])), rng.randbytes(rng.choice([0, 3]))
+        # (NUL-only code bytes - `add [rax], al` padding - are non-empty values like any other)
+        a, b = (rng.choice([b"", rng.randbytes(3), rng.randbytes(3), b"\0" * rng.choice([1, 2, 4])]) for _ in range(2))
         m["procinj_x64"] = (a, b)
         opt.append((47, 3, (u32(len(a)) + a + u32(len(b)) + b).ljust(256, b"\0")))
         m["stub"] = rng.randbytes(16)
